@@ -68,10 +68,18 @@ def job_vary(ses, proto, what, fkind, akind, fkind2=None, akind2=None):
                     steps += key_steps(proto, m2, 'k2'); pkey = '$k2_pk'
                 f2 = _txt(m.get('footer2')) if what == 'footer' else _txt(m.get('footer'))
                 a2 = _txt(m.get('assertion2')) if what == 'assertion' else _txt(m.get('assertion'))
+                # the authentic parse first (state kept between calls - a cache, a memo - is then warm), then the solver's key, then single-bit neighbours of the right key
+                steps.append({'op': 'parse_core', 'proto': proto, 'token': '$T', 'key': '$k_pk', 'footer': None if fkind == 'none' else _txt(m.get('footer')),
+                              'assertion': None if akind == 'none' else _txt(m.get('assertion')), 'out': 'R_warm'})
                 steps.append({'op': 'parse_core', 'proto': proto, 'token': '$T', 'key': pkey, 'footer': None if fkind2 == 'none' else f2,
                               'assertion': None if akind2 == 'none' else a2, 'out': 'R'})
-                ses.violation('%s: the token is accepted although the %s differs' % (tag, what), m,
-                              {'steps': steps, 'violated_if': [[{'var': 'R', 'is': 'ok'}, {'var': 'T', 'is': 'ok'}]]})
+                alts = [[{'var': 'R', 'is': 'ok'}, {'var': 'T', 'is': 'ok'}]]
+                if what == 'key':
+                    for ni, (idx, mask) in enumerate(((0, 1), (0, 0x80), (-1, 1), (-1, 0x80), (16, 0x10), (1, 1))):
+                        steps += [{'op': 'bytes_xor', 'in': '$k_pk', 'index': idx, 'mask': mask, 'out': 'kn%d' % ni},
+                                  {'op': 'parse_core', 'proto': proto, 'token': '$T', 'key': '$kn%d' % ni, 'footer': None if fkind2 == 'none' else f2, 'assertion': None if akind2 == 'none' else a2, 'out': 'RN%d' % ni}]
+                        alts.append([{'var': 'RN%d' % ni, 'is': 'ok'}, {'var': 'T', 'is': 'ok'}])
+                ses.violation('%s: the token is accepted although the %s differs' % (tag, what), m, {'steps': steps, 'violated_if': alts})
             v_, _ = ses.ask('%s: acceptance with the matching %s is reachable' % (tag, what), list(sd.pc) + [Not(differs)], 'sat')
             wit_ok = wit_ok or v_ == 'sat'
         ses.samples.append({'query': tag, 'decrypt_paths': [describe(r) for _, r in D]})
@@ -88,6 +96,8 @@ def run(ses):
         jobs.append((job_vary, (p, 'key', 'some', a)))
         if ses.tier == 'thorough': jobs.append((job_vary, (p, 'key', 'none', 'none')))
     jobs += upper.key_jobs(ses.tier)
+    from .. import coreapi
+    jobs.append((coreapi.job_core_api, ()))        # newtype constructors, builder(), setters, Clone: what the caller writes reaches the entry point unchanged
     run_jobs(ses, jobs)
     ses.trusted_base = TRUSTED
     ses.assumptions = ['K\' is any key object of the right type with K\' != K (for P-384: not another encoding of the same point); everything else as at build time']
@@ -95,3 +105,4 @@ def run(ses):
 
 confirm = c01.confirm
 replay = c01.replay
+BASELINE = ['core_api']
